@@ -76,7 +76,7 @@ REL = 1e-10          # relative tolerance in units of each quantity's natural sc
 def plan(tier):  # noqa: D103
     if tier == 'thorough':
         return dict(shards=16, cases=9000, timeout=1500, budget_s=540)
-    return dict(shards=8, cases=600, timeout=400, budget_s=55)
+    return dict(shards=8, cases=600, timeout=400, budget_s=45)
 
 
 def selftest():
@@ -509,7 +509,8 @@ class Observer:
         return getattr(self.cat, name), self.isscalar
 
 
-TABLE_OK = ['label', 'xcentroid', 'ycentroid', 'bbox_xmin', 'bbox_xmax', 'bbox_ymin', 'bbox_ymax', 'area',
+SKY_PROPS_T = ['sky_centroid', 'sky_centroid_icrs', 'sky_bbox_ll', 'sky_bbox_ul', 'sky_bbox_lr', 'sky_bbox_ur']
+TABLE_OK = SKY_PROPS_T + ['label', 'xcentroid', 'ycentroid', 'bbox_xmin', 'bbox_xmax', 'bbox_ymin', 'bbox_ymax', 'area',
             'segment_area', 'semimajor_sigma', 'semiminor_sigma', 'orientation', 'eccentricity', 'elongation',
             'ellipticity', 'fwhm', 'min_value', 'max_value', 'segment_flux', 'segment_fluxerr',
             'background_sum', 'background_mean', 'background_centroid', 'cxx', 'cyy', 'cxy', 'covar_sigx2',
@@ -692,9 +693,7 @@ def check_against_reference(case, sc, det_sc, cat, rowlabels, mech, props=None, 
         alt[flag] = np.nan
         return cands + [('nan_permitted', alt)]
 
-    dtype_mech = {k: str(getattr(sc, a).dtype) if not str(sc.layout.get(a, '')).startswith('dtype:')
-                  else sc.layout[a][6:] for k, a in (('error_dtype', 'error'), ('background_dtype', 'background'))
-                  if getattr(sc, a) is not None}
+    dtype_mech = {'background_dtype': _dtype_tag(sc, 'background')} if sc.background is not None else {}
     for name in order:
         try:
             v, vs = obs.get(name)
@@ -764,7 +763,8 @@ def check_against_reference(case, sc, det_sc, cat, rowlabels, mech, props=None, 
         elif name == 'segment_fluxerr':
             rc.numeric(name, o, ou, [('definition', [r['ph']['segment_fluxerr'] for r in rows])],
                        [r['ph']['err_scale'] for r in rows], unit,
-                       extra_mech=_narrow_mech(sc, 'error', rows, o, lambda a: np.sqrt(np.sum(a ** 2))))
+                       extra_mech=_narrow_mech(sc, 'error', rows, o, lambda a: np.sqrt(np.sum(a ** 2)),
+                                               alt=lambda a: np.sqrt(np.float64(np.sum(a ** 2)))))
         elif name in ('min_value', 'max_value'):
             e = np.array([r['ph'][name] for r in rows])
             e = np.where(np.isnan(lb), np.nan, e)
@@ -859,7 +859,12 @@ def check_against_reference(case, sc, det_sc, cat, rowlabels, mech, props=None, 
     return rows, obs
 
 
-def _narrow_mech(sc, arrname, rows, obs, fn):
+def _dtype_tag(sc, arrname):
+    tag = str(sc.layout.get(arrname, ''))
+    return tag[6:] if tag.startswith('dtype:') else str(getattr(sc, arrname).dtype)
+
+
+def _narrow_mech(sc, arrname, rows, obs, fn, alt=None):
     """Structural facts for the mechanism key when an input array is a narrow float: its dtype, and whether the
     observed value equals the same reduction accumulated in that narrow dtype (never used for the verdict)."""
     tag = str(sc.layout.get(arrname, ''))
@@ -873,10 +878,16 @@ def _narrow_mech(sc, arrname, rows, obs, fn):
             gy, gx = r['ph']['good_yx']
             if len(gy) == 0:
                 continue
-            em = float(fn(arr[gy, gx]))
             ob = float(obs[i])
-            if not ((np.isnan(em) and np.isnan(ob)) or em == ob or abs(em - ob) <= 1e-12 * abs(em)):
-                same = False
+            hit = False
+            # alt: the narrow sum followed by a float64 square root (the library's result array becomes float64
+            # as soon as another row is fully masked and contributes a float64 NaN)
+            for f in (fn, alt):
+                if f is None:
+                    continue
+                em = float(f(arr[gy, gx]))
+                hit |= bool((np.isnan(em) and np.isnan(ob)) or em == ob or abs(em - ob) <= 1e-12 * abs(em))
+            same &= hit
     return {arrname + '_dtype': dt.name, 'equals_accumulation_in_input_dtype': bool(same)}
 
 
@@ -1070,7 +1081,14 @@ def _struct_rows_equal(case, c1, c2, names, what, mech, skip_rows_for=None, foot
     for name in names:
         if footprint_only and name in PLAIN_CUTOUTS:
             continue                      # pixels of the bounding box that do not carry the label may change
-        a, b = getattr(c1, name), getattr(c2, name)
+        try:
+            a, b = getattr(c1, name), getattr(c2, name)
+        except Exception as exc:  # noqa: BLE001
+            loc = core.exc_location(exc)
+            if loc is None:
+                raise
+            case.check(False, 'property_raised', dict(mech, prop=name, exc=type(exc).__name__, at=loc), msg=str(exc)[:200])
+            continue
         if footprint_only and name in MASKED_CUTOUTS:
             a, b = _footprint_only(a), _footprint_only(b)
         if skip_rows_for and name in skip_rows_for:
@@ -1145,9 +1163,17 @@ def relation_outside(case, sc, det_sc, mech):
         fin = np.isfinite(x1) & np.isfinite(y1)
         true_t = np.array([bool(f and touched(y, x)) for x, y, f in zip(x1, y1, fin)])
         swap_t = np.array([bool(f and touched(x, y)) for x, y, f in zip(x1, y1, fin)])
-        b1, _ = num_rows(c1.background_centroid, bool(c1.isscalar))
-        b2, _ = num_rows(c2.background_centroid, bool(c2.isscalar))
-        for flag in (False, True):
+        try:
+            b1, _ = num_rows(c1.background_centroid, bool(c1.isscalar))
+            b2, _ = num_rows(c2.background_centroid, bool(c2.isscalar))
+        except Exception as exc:  # noqa: BLE001
+            loc = core.exc_location(exc)
+            if loc is None:
+                raise
+            case.check(False, 'property_raised', dict(mech, prop='background_centroid', exc=type(exc).__name__, at=loc,
+                                                      background_dtype=_dtype_tag(sc, 'background')), msg=str(exc)[:200])
+            b1 = b2 = None
+        for flag in (False, True) if b1 is not None else ():
             rows_ = ~true_t & (swap_t == flag)
             if rows_.any():
                 ok = np.array_equal(b1[rows_], b2[rows_], equal_nan=True)
@@ -1171,7 +1197,7 @@ def relation_renumber(case, sc, det_sc, mech, with_kron):
     top = max(50, 4 * n) if limit is None else min(max(50, 4 * n), limit + 1)
     pool = np.arange(1, top)
     if via_api:
-        top = max(labels) + max(50, 4 * n) if limit is None else limit + 1
+        top = max(labels) + max(50, 4 * n) if limit is None else min(limit + 1, max(labels) + max(50, 4 * n))
         pool = np.setdiff1d(np.arange(1, top), labels)                              # unused numbers only
     new = [int(x) for x in rng.choice(pool, size=n, replace=False)]
     if n > 1 and sorted(new) == [new[i] for i in np.argsort(labels)]:
@@ -1228,9 +1254,11 @@ def run_case(case):
     labels = [int(x) for x in sc.labels]
     n = len(labels)
     for ax in sc.axes:
-        case.note('axis_' + ax)
+        case.note('axis2_' + ax[2:] if ax.startswith('2_') else 'axis_' + ax)
     if not sc.axes:
         case.note('axis_plain_scene')
+    if det_sc is not None and det_sc.provenance.get('as_child'):
+        case.note('axis2_provenance_detection_cat_is_indexed_child')
 
     # row selection
     sel = rng.random()
@@ -1239,7 +1267,19 @@ def run_case(case):
     elif sel < 0.7:
         how = 'get_labels'
         k = int(rng.integers(1, n + 1))
-        idx = [int(x) for x in rng.choice(labels, size=k, replace=rng.random() < 0.2)]
+        idx = [int(x) for x in rng.choice(labels, size=k, replace=rng.random() < 0.3)]
+        # set-like argument: descending order, duplicates, and the container / integer dtype it arrives in
+        if rng.random() < 0.3:
+            idx = sorted(idx, reverse=True)
+            idx_note = 'axis2_labels_descending'
+        else:
+            idx_note = 'axis2_labels_with_duplicates' if len(set(idx)) < len(idx) else None
+        if idx_note:
+            case.note(idx_note)
+        lform = ['list', 'tuple', 'int64', 'int32', 'uint64', 'uint16', 'int16'][int(rng.integers(0, 7))]
+        if lform in ('uint16', 'int16') and max(idx) > 32000:
+            lform = 'int64'
+        case.note('axis2_labels_as_' + lform)
     elif sel < 0.8:
         how, idx = 'get_label', int(labels[int(rng.integers(0, n))])
     elif sel < 0.9:
@@ -1259,10 +1299,18 @@ def run_case(case):
     detcat = gen.make_catalog(det_sc) if det_sc is not None else None
     cat = gen.make_catalog(sc, detcat)
     case.check([int(x) for x in cat.labels] == labels, 'labels_sorted_as_segment_image', mech)
+    if how != 'all' and rng.random() < 0.4:
+        # lazily evaluated properties cached on the parent BEFORE the rows are selected / reordered
+        pre = [p for p in ALL_PROPS if rng.random() < 0.3 and (sc.background is None or p != 'background_centroid'
+                                                                or not _dtype_tag(sc, 'background') == 'float16')]
+        for name in pre:
+            getattr(cat, name)
+        case.note('axis2_properties_cached_before_row_selection', len(pre))
     if how == 'all':
         rowlabels = labels
     elif how == 'get_labels':
-        cat = cat.get_labels(idx)
+        arg = idx if lform == 'list' else tuple(idx) if lform == 'tuple' else np.array(idx, dtype=lform)
+        cat = cat.get_labels(arg)
         rowlabels = idx
     elif how == 'get_label':
         cat = cat.get_label(idx)
@@ -1292,6 +1340,16 @@ def run_case(case):
         case.note('fully_masked_rows_observed', nmasked)
 
     rows, _ = check_against_reference(case, sc, det_sc, cat, rowlabels, mech, via_table=via_table)
+
+    # the same object asked twice on the sky / WCS path (and once more through a table): same answers
+    if (sc.wcs if det_sc is None else det_sc.wcs) is not None:
+        first = {nm: getattr(cat, nm) for nm in SKY_PROPS}
+        check_against_reference(case, sc, det_sc, cat, rowlabels, dict(mech, request='second'), props=SKY_PROPS,
+                                via_table=rng.random() < 0.5)
+        for nm in SKY_PROPS:
+            ok, why = cmp.struct_same(getattr(cat, nm), first[nm], nm)
+            case.check(ok, 'second_request_equals_first', dict(mech, prop=nm), why=why)
+        case.note('axis2_sky_outputs_requested_twice')
 
     # fully masked sources: NaN rather than a number also for the Kron quantities (documented)
     if nmasked and det_sc is None and rng.random() < 0.5:
